@@ -258,3 +258,25 @@ def t_choice_build(E):
     E.prove("C17.Choice.static_address_below_a_value_is_empty",
             E.Not(obs(E, E.method(E.method(E.call(C_ + "ChoiceMap.choice", a), "get_submap", "x"), "get_value"))[0]))
     E.refutable("chm.choice_build", present)
+
+
+@task("bounded.choice_map.index_address_kinds", props=["C17", "C11"], functions=FUNCS, kind="bounded")
+def t_bounded_index_kinds(_E):
+    """BOUNDED stand-in (not a proof): array-valued index components, slices, builders under jax.vmap and vectorised flags -
+    the address kinds the obligations above do not cover - on the real classes against an independently computed reference
+    finite map (replay/bounded_c17_chm.py states the exact bounds)"""
+    import json
+    import os
+    import subprocess
+    root = os.path.dirname(os.path.dirname(os.path.abspath(__file__)))
+    repo = os.environ.get("VERIF_REPO", "/repo")
+    tier = os.environ.get("VERIF_TIER", "quick")
+    try:
+        p = subprocess.run(["/venv/bin/python", os.path.join(root, "replay", "bounded_c17_chm.py"), tier], capture_output=True, text=True,
+                           timeout=3000, cwd="/var/tmp", env=dict(os.environ, PYTHONPATH=os.path.join(repo, "src"), JAX_PLATFORMS="cpu"))
+        line = [l for l in p.stdout.splitlines() if l.startswith("{")]
+        if not line:
+            return {"error": "no result: " + (p.stderr or p.stdout)[-1500:], "violations": [], "evaluations": 0}
+        return json.loads(line[-1])
+    except Exception as e:      # noqa
+        return {"error": f"{type(e).__name__}: {e}", "violations": [], "evaluations": 0}
